@@ -351,10 +351,9 @@ func main() {
 			r.Evaluations += sr.Runs
 			r.TracesImpl += sr.Runs
 			r.Transitions += sr.Transitions
-			for i := 0; i < sr.Runs; i++ {
-			}
 			for k, v := range sr.Sites {
 				sites[k] += v
+				r.Outcome("orders of the range at " + k + " explored")
 			}
 			for _, f := range sr.Failures {
 				r.Fail(f)
